@@ -981,6 +981,13 @@ class Interp(Exec):
         return VBool(res)
 
     def compare(self, op, a, b):
+        if isinstance(op, (ast.Eq, ast.NotEq)) and getattr(self.reg, "eq_may_raise", False) and not self.spec_mode \
+                and isinstance(a, VObj) and isinstance(b, VObj) and a is not VNone and b is not VNone \
+                and not ({(a.cls or "").replace("nn:", ""), (b.cls or "").replace("nn:", "")} & {"bytes", "str", "int", "bool", "float"}):
+            # `==` / `!=` between two arbitrary objects runs their __eq__: user / library code whose answer need not be a bool (numpy compares element-wise
+            # and `if a != b` then raises ValueError) -- opted into by contract modules whose functions compare values they do not control
+            if self.choose([z3.BoolVal(True), z3.BoolVal(True)]) == 1:
+                raise PyRaise(VExc("ValueError", []))
         if isinstance(op, (ast.Is, ast.Eq)):
             return self.equal(a, b, identity=isinstance(op, ast.Is))
         if isinstance(op, (ast.IsNot, ast.NotEq)):
